@@ -11,7 +11,11 @@
       {let $x: e /}, {let $x}…{/let},
       {call} without a data attribute, with data="all", with data="$m" (a variable) or data="[k₁: e₁, …]" (a
         map literal), with value params and content params ({param k}…{/param}),
-      {msg} without a message bundle (text, placeholders — commands of the fragment or HTML tags —, {plural}),
+      {msg} (text, placeholders — commands of the fragment or HTML tags —, {plural}), without a message bundle
+        and THROUGH one (a message without a translation: its source; a translation: raw text, placeholder
+        parts = the source placeholder of that name, plural parts = the form the bundle's plural function
+        selects; `mparts_agree`, given `BundleOk g hasBundle dsem`: the specification's bundle content is the
+        interpreter's — `modelMsgSem`),
       header params
       — nested arbitrarily, templates calling templates to any depth (`render_refines_lexical_partial`),
       with expressions of the scalar operator fragment of Props/C01.lean,
@@ -42,9 +46,8 @@
 
   Still outside (exactly): expressions beyond Props/C01's scalar operator fragment (accesses, collection
   literals other than a loop's list literal and a call's map literal, functions other than a loop's range —
-  hence also `index` / `isFirst` / `isLast`), collections nested in collections, {msg} with a message bundle (the
-  specification leaves the translated text open: `hasBundle` ⇒ unspec).  Those are covered by the scoping theorems of Props/C02.lean and by
-  the Spec.render oracle of the C02exec correspondence.
+  hence also `index` / `isFirst` / `isLast`), collections nested in collections.  Those are covered by the
+  scoping theorems of Props/C02.lean and by the Spec.render oracle of the C02exec correspondence.
 -/
 import SoyVerif.Lemmas.ExecRefine
 import SoyVerif.Lemmas.RangeRefine
@@ -491,6 +494,25 @@ theorem evalIn_range_sim {g : GEnv} {ctx : Scope} {st : St} {env : Spec.Eval.Env
     · have hlen' : ¬args.length = 1 ∧ ¬args.length = 2 ∧ ¬args.length = 3 := by simpa using hlen
       simp [evalIn, evalE, hloopM, har, hlen']
 
+mutual
+/-- the interpreter's translation parts as the specification's -/
+def toT : MParts → Spec.Eval.TParts
+  | .nil => .nil
+  | .cons (.raw t) rest => .cons (.raw t) (toT rest)
+  | .cons (.ph n) rest => .cons (.ph n) (toT rest)
+  | .cons (.plural vn cases) rest => .cons (.plural vn (toTC cases)) (toT rest)
+def toTC : MCases → Spec.Eval.TCases
+  | .nil => .nil
+  | .cons parts rest => .cons (toT parts) (toTC rest)
+end
+
+/-- the specification's bundle (if its content is given) is the interpreter's: no bundle flag without a
+    bundle, the same translations, the same plural function -/
+def BundleOk (g : GEnv) (hasBundle : Bool) (dsem : Option Spec.Eval.LibSem) : Prop :=
+  (hasBundle = false → g.msgs = none) ∧
+  ∀ B, Spec.Eval.msgsOf dsem = some B →
+    ∃ b, g.msgs = some b ∧ (∀ n, B.pluralCase n = b.pluralCase n) ∧ ∀ id, B.message id = (b.message id).map toT
+
 /-- the interpreter's directive implementations compute what the specification's parameter `F` says, on
     scalars -/
 def DirAgree (F : Bytes → Val → List Val → Out Val) : Prop :=
@@ -534,8 +556,8 @@ theorem evalPrintAt_ok {g : GEnv} {esc e' : Bool} {pos : Nat} {arg : Expr} {dirs
 section
 variable {coll : Bytes → Bool} (g : GEnv) (hob : g.oblig = []) (esc : Bool) (call : Registry.Tmpl → Run) (hcall : ∀ t, GoodRun (call t))
   (reg : Registry.Reg) (hasBundle : Bool) (entry : Spec.Eval.Binds) (scall : Registry.Tmpl → Spec.Eval.CallEnv → Out Bytes)
-  (dsem : Option Spec.Eval.DirSem)
-  (hreg : g.reg = reg) (hmsg : hasBundle = false → g.msgs = none) (hdir : DirOk g dsem)
+  (dsem : Option Spec.Eval.LibSem)
+  (hreg : g.reg = reg) (hmsg : BundleOk g hasBundle dsem) (hdir : DirOk g (Spec.Eval.dirsOf dsem))
   (hcs : ∀ (t : Registry.Tmpl), t ∈ reg → ∀ (cctx : Scope) (s2 : St) (ce : Spec.Eval.CallEnv),
     Rel coll g ce.entry cctx s2 { vars := ce.entry, loops := [], ij := ce.ij, globals := ce.globals } → Own cctx s2 → ScopeOk cctx s2 →
     AgreeT s2 (call t cctx s2) (scall t ce))
@@ -936,17 +958,17 @@ include hdir in
     a cancelling directive clears the escape flag -/
 theorem runDirectives_sim {ctx : Scope} {env : Spec.Eval.Env} : ∀ (ds : List Directive), dirsFrag coll ds = true →
     ∀ (mv : Value) (esc : Bool) (st : St), Scalar mv = true → Rel coll g entry ctx st env →
-    (∀ r, Spec.Eval.runDirs dsem env ds (absV mv) esc = .val r → ∃ mv' st2,
+    (∀ r, Spec.Eval.runDirs (Spec.Eval.dirsOf dsem) env ds (absV mv) esc = .val r → ∃ mv' st2,
         runDirectives g ctx ds mv esc st = some (mv', r.2, st2) ∧ absV mv' = r.1 ∧ Scalar mv' = true ∧
         st2.heap = st.heap ∧ st2.out = st.out) ∧
-    (Spec.Eval.runDirs dsem env ds (absV mv) esc = .error → runDirectives g ctx ds mv esc st = none)
+    (Spec.Eval.runDirs (Spec.Eval.dirsOf dsem) env ds (absV mv) esc = .error → runDirectives g ctx ds mv esc st = none)
   | [], _, mv, esc, st, hsc, _ => by
     rw [Spec.Eval.runDirs, runDirectives]
     exact ⟨fun r h => by simp only [Out.val.injEq] at h; subst h; exact ⟨mv, st, rfl, rfl, hsc, rfl, rfl⟩, fun h => by simp at h⟩
   | d :: ds, hf, mv, esc, st, hsc, hr => by
     simp only [dirsFrag, List.all_cons, Bool.and_eq_true] at hf
     have ihds := runDirectives_sim (ctx := ctx) (env := env) ds hf.2
-    cases hD : dsem with
+    cases hD : Spec.Eval.dirsOf dsem with
     | none => rw [Spec.Eval.runDirs]; exact ⟨fun r h => by simp at h, fun h => by simp at h⟩
     | some D =>
       rw [hD] at ihds
@@ -984,6 +1006,239 @@ theorem runDirectives_sim {ctx : Scope} {env : Spec.Eval.Env} : ∀ (ds : List D
                 subst habs'
                 simp only [hap]
                 exact (ihds mv' (if e.cancel then false else esc) st1 hsc' (hr.of_heap hh)).2 herr
+
+/-! ### a {msg} rendered through a translation -/
+
+/-- the placeholder runs of a message against the specification's: same depths, same names, runs that agree -/
+inductive PhRel (coll : Bytes → Bool) (g : GEnv) (entry : Spec.Eval.Binds) :
+    List (Nat × Bytes × Run) → List (Nat × Bytes × (Spec.Eval.Env → Spec.Eval.ROut)) → Prop where
+  | nil : PhRel coll g entry [] []
+  | cons {d : Nat} {n : Bytes} {run : Run} {f : Spec.Eval.Env → Spec.Eval.ROut} {l l'} :
+      GoodRun run →
+      (∀ ctx st env, Rel coll g entry ctx st env → Own ctx st → ScopeOk ctx st → Agree coll g entry ctx st (run ctx st) (f env)) →
+      PhRel coll g entry l l' → PhRel coll g entry ((d, n, run) :: l) ((d, n, f) :: l')
+
+omit hob hcall hreg hmsg hdir hcs in
+theorem PhRel.append {l1 l2 : List (Nat × Bytes × Run)} {m1 m2} (h1 : PhRel coll g entry l1 m1) (h2 : PhRel coll g entry l2 m2) :
+    PhRel coll g entry (l1 ++ l2) (m1 ++ m2) := by
+  induction h1 with
+  | nil => exact h2
+  | cons hg ha _ ih => exact .cons hg ha ih
+
+omit hob hcall hreg hmsg hdir hcs in
+theorem PhRel.good {l : List (Nat × Bytes × Run)} {m} (h : PhRel coll g entry l m) : ∀ e ∈ l, GoodRun e.2.2 := by
+  induction h with
+  | nil => intro e he; cases he
+  | cons hg _ _ ih =>
+    intro e he
+    rcases List.mem_cons.mp he with rfl | he
+    · exact hg
+    · exact ih e he
+
+/-- what `pickPh` and the specification's `pickPhS` hold: nothing on both sides, or runs that agree -/
+def PickRel (coll : Bytes → Bool) (g : GEnv) (entry : Spec.Eval.Binds) :
+    Option (Nat × Run) → Option (Nat × (Spec.Eval.Env → Spec.Eval.ROut)) → Prop
+  | none, none => True
+  | some (d, run), some (d', f) => d = d' ∧ GoodRun run ∧
+      ∀ ctx st env, Rel coll g entry ctx st env → Own ctx st → ScopeOk ctx st → Agree coll g entry ctx st (run ctx st) (f env)
+  | _, _ => False
+
+omit hob hcall hreg hmsg hdir hcs in
+/-- the same placeholder is found on both sides -/
+theorem pick_rel (name : Bytes) {l : List (Nat × Bytes × Run)} {m} (h : PhRel coll g entry l m) :
+    ∀ best sbest, PickRel coll g entry best sbest →
+      match pickPh name l best, Spec.Eval.pickPhS name m sbest with
+      | none, none => True
+      | some run, some f => GoodRun run ∧
+          ∀ ctx st env, Rel coll g entry ctx st env → Own ctx st → ScopeOk ctx st → Agree coll g entry ctx st (run ctx st) (f env)
+      | _, _ => False := by
+  induction h with
+  | nil =>
+    intro best sbest hb
+    simp only [pickPh, Spec.Eval.pickPhS]
+    cases best with
+    | none => cases sbest with
+      | none => trivial
+      | some _ => exact hb.elim
+    | some b => cases sbest with
+      | none => obtain ⟨_, _⟩ := b; exact hb.elim
+      | some sb => obtain ⟨d, run⟩ := b; obtain ⟨d', f⟩ := sb; exact ⟨hb.2.1, hb.2.2⟩
+  | @cons d n run f l l' hg ha _ ih =>
+    intro best sbest hb
+    simp only [pickPh, Spec.Eval.pickPhS]
+    by_cases hn : (n == name) = true
+    · simp only [hn, if_true]
+      cases best with
+      | none => cases sbest with
+        | none => exact ih (some (d, run)) (some (d, f)) ⟨rfl, hg, ha⟩
+        | some _ => exact hb.elim
+      | some b => cases sbest with
+        | none => obtain ⟨_, _⟩ := b; exact hb.elim
+        | some sb =>
+          obtain ⟨bd, brun⟩ := b; obtain ⟨bd', bf⟩ := sb
+          obtain ⟨hd, h2, h3⟩ := hb
+          subst hd
+          simp only
+          by_cases hlt : d < bd
+          · simp only [hlt, if_true]; exact ih (some (d, run)) (some (d, f)) ⟨rfl, hg, ha⟩
+          · simp only [hlt, if_false]; exact ih (some (bd, brun)) (some (bd, bf)) ⟨rfl, h2, h3⟩
+    · simp only [hn, Bool.false_eq_true, if_false]
+      exact ih _ _ hb
+
+omit hob hcall hreg hmsg hdir hcs in
+theorem findPlural_eq : ∀ (body : MsgParts) (n : Bytes), findPlural body n = Spec.Eval.findPluralS body n
+  | .nil, _ => rfl
+  | .text _ _ r, n => by rw [findPlural, Spec.Eval.findPluralS]; exact findPlural_eq r n
+  | .ph _ _ _ r, n => by rw [findPlural, Spec.Eval.findPluralS]; exact findPlural_eq r n
+  | .plural _ vn v _ _ _ r, n => by
+    rw [findPlural, Spec.Eval.findPluralS]
+    split
+    · rfl
+    · exact findPlural_eq r n
+
+omit hob hcall hreg hmsg hdir hcs in
+/-- the value of a plural variable is an expression of the fragment -/
+theorem findPlural_frag : ∀ (body : MsgParts), partsFrag coll body = true → ∀ n ve, findPlural body n = some ve → frag coll ve = true
+  | .nil, _, _, _, h => by simp [findPlural] at h
+  | .text _ _ r, hf, n, ve, h => by
+    rw [findPlural] at h; simp only [partsFrag] at hf; exact findPlural_frag r hf n ve h
+  | .ph _ _ _ r, hf, n, ve, h => by
+    rw [findPlural] at h; simp only [partsFrag, Bool.and_eq_true] at hf; exact findPlural_frag r hf.2 n ve h
+  | .plural _ vn v _ _ _ r, hf, n, ve, h => by
+    rw [findPlural] at h
+    simp only [partsFrag, Bool.and_eq_true] at hf
+    split at h
+    · simp only [Option.some.injEq] at h; rw [← h]; exact hf.1.1.1
+    · exact findPlural_frag r hf.2 n ve h
+
+section
+variable (b : MsgBundle) (hgb : g.msgs = some b) (B : Spec.Eval.MsgSem) (hpl : ∀ n, B.pluralCase n = b.pluralCase n)
+  (body : MsgParts) (hbf : partsFrag coll body = true)
+  (phs : List (Nat × Bytes × Run)) (sphs : List (Nat × Bytes × (Spec.Eval.Env → Spec.Eval.ROut)))
+  (hrel : PhRel coll g entry phs sphs)
+include hgb hpl hbf hrel
+omit hob hcall hreg hmsg hdir hcs
+
+mutual
+/-- `evalMsgParts` against the specification's `renderT`: raw text, the placeholder of that name, the plural
+    form the bundle selects -/
+theorem mparts_agree : (ps : MParts) → ∀ (ctx : Scope) (st : St) (env : Spec.Eval.Env),
+    Rel coll g entry ctx st env → Own ctx st → ScopeOk ctx st →
+    Agree coll g entry ctx st (evalMParts g phs body ps ctx st) (Spec.Eval.renderT B sphs body (toT ps) env)
+  | .nil, ctx, st, env, hr, _, _ => by
+    rw [evalMParts, toT, Spec.Eval.renderT]; exact ⟨rfl, by simp, hr⟩
+  | .cons (.raw t) rest, ctx, st, env, hr, hown, hok => by
+    rw [evalMParts, toT, Spec.Eval.renderT]
+    have ih := mparts_agree rest ctx (write st t) env (hr.of_heap rfl) (hown.ext (write_ext (fun _ => False) _ t)) hok
+    cases hv : Spec.Eval.renderT B sphs body (toT rest) env with
+    | unspec => simp [Spec.Eval.Out.bind, Agree]
+    | error => rw [hv] at ih; simpa [Spec.Eval.Out.bind, Agree] using ih
+    | val q =>
+      obtain ⟨o, env'⟩ := q
+      rw [hv] at ih
+      simp only [Agree] at ih
+      simp only [Spec.Eval.Out.bind, Agree]
+      refine ⟨ih.1, ?_, ih.2.2⟩
+      rw [ih.2.1, bufBytes_write]
+      simp
+  | .cons (.ph name) rest, ctx, st, env, hr, hown, hok => by
+    rw [evalMParts, toT, Spec.Eval.renderT]
+    have hp := pick_rel g entry name hrel none none trivial
+    cases hm : pickPh name phs none with
+    | none =>
+      rw [hm] at hp
+      cases hs : Spec.Eval.pickPhS name sphs none with
+      | none => simp [Agree]
+      | some f => rw [hs] at hp; exact hp.elim
+    | some run =>
+      rw [hm] at hp
+      cases hs : Spec.Eval.pickPhS name sphs none with
+      | none => rw [hs] at hp; exact hp.elim
+      | some f =>
+        rw [hs] at hp
+        obtain ⟨hgr, hag⟩ := hp
+        simp only
+        have h1 := hag ctx st env hr hown hok
+        have hg := hgr ctx st hown
+        cases hv : f env with
+        | unspec => simp [Spec.Eval.Out.bind, Agree]
+        | error => rw [hv] at h1; simp only [Agree] at h1; simp [Spec.Eval.Out.bind, Agree, h1]
+        | val q =>
+          obtain ⟨o1, env1⟩ := q
+          rw [hv] at h1
+          simp only [Agree] at h1
+          obtain ⟨hcls, hbytes, hrel1⟩ := h1
+          simp only [Spec.Eval.Out.bind, hcls, hg.ctx_eq hcls]
+          have hok1 : ScopeOk ctx (run ctx st).st := fun f' hf' => Nat.lt_of_lt_of_le (hok f' hf') hg.ext.len
+          have h2 := mparts_agree rest ctx _ env1 hrel1 (hown.ext hg.ext) hok1
+          cases hv2 : Spec.Eval.renderT B sphs body (toT rest) env1 with
+          | unspec => simp [Agree]
+          | error => rw [hv2] at h2; simpa [Agree] using h2
+          | val q2 =>
+            rw [hv2] at h2
+            simp only [Agree] at h2 ⊢
+            exact ⟨h2.1, by rw [h2.2.1, hbytes]; simp, h2.2.2⟩
+  | .cons (.plural vn cases) rest, ctx, st, env, hr, hown, hok => by
+    rw [evalMParts, toT, Spec.Eval.renderT, ← findPlural_eq]
+    cases hfp : findPlural body vn with
+    | none => simp [Agree]
+    | some ve =>
+      simp only
+      obtain ⟨h1, h2⟩ := evalIn_sim hr ve (findPlural_frag body hbf vn ve hfp)
+      cases hv : Spec.Eval.eval env ve with
+      | unspec => simp [Spec.Eval.Out.bind, Agree]
+      | error => simp [Spec.Eval.Out.bind, Agree, h2 hv]
+      | val v =>
+        obtain ⟨mv, st1, he, habs, hsc, hheap, hout⟩ := h1 v hv
+        subst habs
+        have hr1 : Rel coll g entry ctx st1 env := hr.of_heap hheap
+        have hok1 : ScopeOk ctx st1 := fun f hf' => by rw [hheap]; exact hok f hf'
+        have hown1 : Own ctx st1 := hown.ext (evalIn_ext (fun _ => False) he)
+        simp only [Spec.Eval.Out.bind, he]
+        cases mv with
+        | int i =>
+          simp only [absV, hgb, hpl]
+          by_cases hneg : b.pluralCase i.toInt < 0
+          · simp [hneg, Agree]
+          · simp only [hneg, if_false]
+            have hc := mcases_agree cases (b.pluralCase i.toInt).toNat ctx st1 env hr1 hown1 hok1
+            have hg := evalMCases_good g phs body (PhRel.good g entry hrel) cases (b.pluralCase i.toInt).toNat ctx st1 hown1
+            cases hv1 : Spec.Eval.renderTCases B sphs body (toTC cases) (b.pluralCase i.toInt).toNat env with
+            | unspec => simp [Agree]
+            | error => rw [hv1] at hc; simp only [Agree] at hc; simp [Agree, hc]
+            | val q =>
+              obtain ⟨o1, env1⟩ := q
+              rw [hv1] at hc
+              simp only [Agree] at hc
+              obtain ⟨hcls, hbytes, hrel1⟩ := hc
+              simp only [hcls, hg.ctx_eq hcls]
+              have hok2 : ScopeOk ctx (evalMCases g phs body cases (b.pluralCase i.toInt).toNat ctx st1).st :=
+                fun f hf' => Nat.lt_of_lt_of_le (hok1 f hf') hg.ext.len
+              have h3 := mparts_agree rest ctx _ env1 hrel1 (hown1.ext hg.ext) hok2
+              cases hv2 : Spec.Eval.renderT B sphs body (toT rest) env1 with
+              | unspec => simp [Agree]
+              | error => rw [hv2] at h3; simpa [Agree] using h3
+              | val q2 =>
+                rw [hv2] at h3
+                simp only [Agree] at h3 ⊢
+                exact ⟨h3.1, by rw [h3.2.1, hbytes, hout]; simp, h3.2.2⟩
+        | undefined => simp [absV, Agree]
+        | null => simp [absV, Agree]
+        | bool _ => simp [absV, Agree]
+        | float _ => simp [absV, Agree]
+        | str _ => simp [absV, Agree]
+        | list _ _ => simp [Scalar] at hsc
+        | map _ _ => simp [Scalar] at hsc
+theorem mcases_agree : (cs : MCases) → ∀ (n : Nat) (ctx : Scope) (st : St) (env : Spec.Eval.Env),
+    Rel coll g entry ctx st env → Own ctx st → ScopeOk ctx st →
+    Agree coll g entry ctx st (evalMCases g phs body cs n ctx st) (Spec.Eval.renderTCases B sphs body (toTC cs) n env)
+  | .nil, n, ctx, st, env, _, _, _ => by rw [evalMCases, toTC, Spec.Eval.renderTCases]; simp [Agree]
+  | .cons parts _, 0, ctx, st, env, hr, hown, hok => by
+    rw [evalMCases, toTC, Spec.Eval.renderTCases]; exact mparts_agree parts ctx st env hr hown hok
+  | .cons _ rest, n + 1, ctx, st, env, hr, hown, hok => by
+    rw [evalMCases, toTC, Spec.Eval.renderTCases]; exact mcases_agree rest n ctx st env hr hown hok
+end
+end
 
 include hcall in
 /-- {foreach} / {for}, given the evaluation of its list (`hE`), its body (`hb`) and its {ifempty} block -/
@@ -1185,7 +1440,7 @@ theorem cmd_agree : (c : Cmd) → cfrag coll c = true → ∀ (ctx : Scope) (st 
     have hr := hr0
     obtain ⟨h1, h2⟩ := evalIn_sim hr arg hfa
     rw [Spec.Eval.renderCmd]
-    by_cases hU : (!dirs.isEmpty && dsem.isNone) = true
+    by_cases hU : (!dirs.isEmpty && (Spec.Eval.dirsOf dsem).isNone) = true
     · simp [hU, Agree]
     · simp only [hU, Bool.false_eq_true, if_false]
       cases hv : Spec.Eval.eval env arg with
@@ -1205,7 +1460,7 @@ theorem cmd_agree : (c : Cmd) → cfrag coll c = true → ∀ (ctx : Scope) (st 
           simp only [hnu, Bool.false_eq_true, if_false]
           have hd := runDirectives_sim g entry dsem hdir dirs hfd mv esc st1 hsc (hr.of_heap hheap)
           have hdl : dirs ++ obligDirs pos g.oblig = dirs := by rw [hob]; simp [obligDirs]
-          cases hrd : Spec.Eval.runDirs dsem env dirs (absV mv) esc with
+          cases hrd : Spec.Eval.runDirs (Spec.Eval.dirsOf dsem) env dirs (absV mv) esc with
           | unspec => simp [Agree]
           | error =>
             simp only [Agree]
@@ -1323,22 +1578,50 @@ theorem cmd_agree : (c : Cmd) → cfrag coll c = true → ∀ (ctx : Scope) (st 
   | .msg _ id _ _ _ body, hf, ctx, st, env, hr, hown, hok => by
     simp only [cfrag] at hf
     rw [execCmd, Spec.Eval.renderCmd]
-    cases hB : hasBundle with
-    | true => simp [Agree]
-    | false =>
-      simp only [hmsg hB, Bool.false_eq_true, if_false]
-      -- the message is one block: a fresh frame around its parts
+    -- the source path: the message is one block, a fresh frame around its parts
+    have hsrc : Agree coll g entry ctx st (walkBlockOf (walkMsgBody g esc call body) ctx st)
+        ((Spec.Eval.renderParts reg hasBundle esc entry scall dsem body env).bind fun r => .val (r.1, env)) := by
       have hb := block_agree g entry (walkMsgBody g esc call body)
         (fun env' => (Spec.Eval.renderParts reg hasBundle esc entry scall dsem body env').bind fun r => .val r.1)
         (walkMsgBody_good g esc call hcall body)
         (fun ctx' st' env' hr' hown' hok' =>
           ⟨Spec.Eval.renderParts reg hasBundle esc entry scall dsem body env', parts_agree body hf ctx' st' env' hr' hown' hok', rfl⟩)
         ctx st env hr hok
-      rw [hB] at hb
-      cases hv : Spec.Eval.renderParts reg false esc entry scall dsem body env with
+      cases hv : Spec.Eval.renderParts reg hasBundle esc entry scall dsem body env with
       | unspec => simp [Spec.Eval.Out.bind, Agree]
       | error => rw [hv] at hb; simpa [Spec.Eval.Out.bind, Agree, AgreeB] using hb
       | val q => rw [hv] at hb; simpa [Spec.Eval.Out.bind, Agree, AgreeB] using hb
+    cases hB : hasBundle with
+    | false =>
+      rw [hB] at hsrc
+      simp only [hmsg.1 hB, Bool.not_false, if_true]
+      exact hsrc
+    | true =>
+      rw [hB] at hsrc
+      simp only [Bool.not_true, Bool.false_eq_true, if_false]
+      cases hM : Spec.Eval.msgsOf dsem with
+      | none => simp [Agree]
+      | some B =>
+        obtain ⟨b, hgb, hpl, hmm⟩ := hmsg.2 B hM
+        simp only [hgb, hmm id]
+        cases hbm : b.message id with
+        | none => simp only [Option.map_none]; exact hsrc
+        | some parts =>
+          simp only [Option.map_some]
+          -- the translation: its parts, the placeholders those of the source
+          have hrelp := phAll_rel body hf 0
+          have hb := block_agree g entry (evalMParts g (phAll g esc call body 0) body parts)
+            (fun env' => (Spec.Eval.renderT B (Spec.Eval.sphAll reg hasBundle esc entry scall dsem body 0) body (toT parts) env').bind
+              fun r => .val r.1)
+            (evalMParts_good g _ body (phAll_good g esc call hcall body 0) parts)
+            (fun ctx' st' env' hr' hown' hok' =>
+              ⟨_, mparts_agree g entry b hgb B hpl body hf _ _ hrelp parts ctx' st' env' hr' hown' hok', rfl⟩)
+            ctx st env hr hok
+          rw [hB] at hb
+          cases hv : Spec.Eval.renderT B (Spec.Eval.sphAll reg true esc entry scall dsem body 0) body (toT parts) env with
+          | unspec => simp [Spec.Eval.Out.bind, Agree]
+          | error => rw [hv] at hb; simpa [Spec.Eval.Out.bind, Agree, AgreeB] using hb
+          | val q => rw [hv] at hb; simpa [Spec.Eval.Out.bind, Agree, AgreeB] using hb
   | .forc p0 var E (.mk bp cs) none, hf, ctx, st, env, hr, hown, hok => by
     simp only [cfrag, bfrag, Bool.and_eq_true] at hf
     refine forc_core g esc call hcall reg hasBundle entry scall dsem p0 var E (.mk bp cs) none ctx st env hr hok ?_
@@ -1914,6 +2197,29 @@ theorem plural_agree : (cs : PluralCases) → plFrag coll cs = true → ∀ (dfl
     split
     · exact parts_agree body hf.1 ctx st env hr hown hok
     · exact plural_agree rest hf.2 dflt sd hd i ctx st env hr hown hok
+/-- the placeholders of a message: the interpreter's runs against the specification's renderings -/
+theorem phAll_rel : (ps : MsgParts) → partsFrag coll ps = true → ∀ (d : Nat),
+    PhRel coll g entry (phAll g esc call ps d) (Spec.Eval.sphAll reg hasBundle esc entry scall dsem ps d)
+  | .nil, _, d => by rw [phAll, Spec.Eval.sphAll]; exact .nil
+  | .text _ _ rest, hf, d => by
+    rw [phAll, Spec.Eval.sphAll]; simp only [partsFrag] at hf; exact phAll_rel rest hf d
+  | .ph _ name b rest, hf, d => by
+    rw [phAll, Spec.Eval.sphAll]
+    simp only [partsFrag, Bool.and_eq_true] at hf
+    exact .cons (execPh_good g esc call hcall b) (fun ctx st env hr ho hk => ph_agree b hf.1 ctx st env hr ho hk)
+      (phAll_rel rest hf.2 d)
+  | .plural _ _ v cases _ dflt rest, hf, d => by
+    rw [phAll, Spec.Eval.sphAll]
+    simp only [partsFrag, Bool.and_eq_true] at hf
+    exact ((phAllCases_rel cases hf.1.1.2 (d + 3)).append g entry (phAll_rel dflt hf.1.2 (d + 2))).append g entry
+      (phAll_rel rest hf.2 d)
+theorem phAllCases_rel : (cs : PluralCases) → plFrag coll cs = true → ∀ (d : Nat),
+    PhRel coll g entry (phAllCases g esc call cs d) (Spec.Eval.sphAllCases reg hasBundle esc entry scall dsem cs d)
+  | .nil, _, d => by rw [phAllCases, Spec.Eval.sphAllCases]; exact .nil
+  | .cons _ _ _ body rest, hf, d => by
+    rw [phAllCases, Spec.Eval.sphAllCases]
+    simp only [plFrag, Bool.and_eq_true] at hf
+    exact (phAll_rel body hf.1 d).append g entry (phAllCases_rel rest hf.2 d)
 end
 
 
@@ -2009,8 +2315,8 @@ end
 def regFrag (coll : Bytes → Bool) (reg : Registry.Reg) : Prop := ∀ t ∈ reg, bfrag coll t.body = true
 
 /-- a template invocation refines the specification's, at every call depth -/
-theorem tmpl_refines (coll : Bytes → Bool) (g : GEnv) (hob : g.oblig = []) (hasBundle : Bool) (dsem : Option Spec.Eval.DirSem)
-    (hmsg : hasBundle = false → g.msgs = none) (hdir : DirOk g dsem) (hfr : regFrag coll g.reg) :
+theorem tmpl_refines (coll : Bytes → Bool) (g : GEnv) (hob : g.oblig = []) (hasBundle : Bool) (dsem : Option Spec.Eval.LibSem)
+    (hmsg : BundleOk g hasBundle dsem) (hdir : DirOk g (Spec.Eval.dirsOf dsem)) (hfr : regFrag coll g.reg) :
     ∀ (fuel : Nat) (t : Registry.Tmpl), t ∈ g.reg → ∀ (cctx : Scope) (s2 : St) (ce : Spec.Eval.CallEnv),
       Rel coll g ce.entry cctx s2 { vars := ce.entry, loops := [], ij := ce.ij, globals := ce.globals } → Own cctx s2 → ScopeOk cctx s2 →
       AgreeT s2 (runTmpl g fuel t cctx s2) (Spec.Eval.renderTmpl g.reg hasBundle dsem fuel t ce) := by
@@ -2053,8 +2359,8 @@ theorem execute_some (g : GEnv) (name : Bytes) (data : Frame) (fuel : Nat) (t : 
     exactly that text; whenever it yields an error, `execute` fails. -/
 theorem render_refines_lexical_partial (coll : Bytes → Bool) (g : GEnv) (hob : g.oblig = []) (hfr : regFrag coll g.reg)
     (hgl : ∀ kv ∈ g.globals, Scalar kv.2 = true) (name : Bytes) (data : Frame) (hdata : ∀ kv ∈ data, OkAt coll kv.1 kv.2)
-    (fuel : Nat) (ij : Option Spec.Eval.Binds) (hasBundle : Bool) (hmsg : hasBundle = false → g.msgs = none)
-    (dsem : Option Spec.Eval.DirSem) (hdir : DirOk g dsem) :
+    (fuel : Nat) (ij : Option Spec.Eval.Binds) (hasBundle : Bool) (dsem : Option Spec.Eval.LibSem)
+    (hmsg : BundleOk g hasBundle dsem) (hdir : DirOk g (Spec.Eval.dirsOf dsem)) :
     match Spec.Eval.render g.reg (absK g.globals) ij hasBundle name (absK data) fuel dsem with
     | .val out => (execute g name data fuel).cls = .ok ∧ (execute g name data fuel).chunks.flatten = out
     | .error => (execute g name data fuel).cls = .err ∨ (execute g name data fuel).cls = .panic
@@ -2170,7 +2476,7 @@ theorem rel0 : Rel noColl g0 env0.vars ctx0 st0 env0 := by
 example : bufBytes (execBody g0 true (fun _ ctx st => ⟨.fuelOut, ctx, st⟩) body0 ctx0 st0).st.out = [105, 110, 111, 117, 116] := by
   have hcall : ∀ t, GoodRun ((fun _ ctx st => ⟨.fuelOut, ctx, st⟩ : Registry.Tmpl → Run) t) :=
     fun _ ctx st _ => ⟨by simp, fun h => by simp at h, Ext.refl _ _⟩
-  have h := exec_refines_lexical_partial g0 rfl true _ hcall [] false env0.vars (fun _ _ => .unspec) none rfl (fun _ => rfl) (fun _ h => by cases h) (fun _ _ _ _ _ _ _ _ => trivial) body0 (by decide) ctx0 st0 env0 rel0
+  have h := exec_refines_lexical_partial g0 rfl true _ hcall [] false env0.vars (fun _ _ => .unspec) none rfl ⟨fun _ => rfl, fun _ h => by cases h⟩ (fun _ h => by cases h) (fun _ _ _ _ _ _ _ _ => trivial) body0 (by decide) ctx0 st0 env0 rel0
     ⟨⟨1, false⟩, [⟨0, true⟩], ⟨[], false⟩, rfl, rfl, rfl⟩ (by intro f hf; simp [ctx0] at hf; rcases hf with rfl | rfl <;> simp [st0])
   have hs : Spec.Eval.renderBlock [] false true env0.vars (fun _ _ => .unspec) none body0 env0 = .val [105, 110, 111, 117, 116] := by rfl
   rw [hs] at h
@@ -2187,7 +2493,7 @@ def body1 : Block :=
 example : bufBytes (execBody g0 true (fun _ ctx st => ⟨.fuelOut, ctx, st⟩) body1 ctx0 st0).st.out = [97, 98, 33, 111, 117, 116] := by
   have hcall : ∀ t, GoodRun ((fun _ ctx st => ⟨.fuelOut, ctx, st⟩ : Registry.Tmpl → Run) t) :=
     fun _ ctx st _ => ⟨by simp, fun h => by simp at h, Ext.refl _ _⟩
-  have h := exec_refines_lexical_partial g0 rfl true _ hcall [] false env0.vars (fun _ _ => .unspec) none rfl (fun _ => rfl) (fun _ h => by cases h) (fun _ _ _ _ _ _ _ _ => trivial) body1 (by decide) ctx0 st0 env0 rel0
+  have h := exec_refines_lexical_partial g0 rfl true _ hcall [] false env0.vars (fun _ _ => .unspec) none rfl ⟨fun _ => rfl, fun _ h => by cases h⟩ (fun _ h => by cases h) (fun _ _ _ _ _ _ _ _ => trivial) body1 (by decide) ctx0 st0 env0 rel0
     ⟨⟨1, false⟩, [⟨0, true⟩], ⟨[], false⟩, rfl, rfl, rfl⟩ (by intro f hf; simp [ctx0] at hf; rcases hf with rfl | rfl <;> simp [st0])
   have hs : Spec.Eval.renderBlock [] false true env0.vars (fun _ _ => .unspec) none body1 env0 = .val [97, 98, 33, 111, 117, 116] := by rfl
   rw [hs] at h
@@ -2214,7 +2520,7 @@ example : (execute gCall [116] [] 4).cls = .ok ∧ (execute gCall [116] [] 4).ch
     intro t ht
     simp only [gCall, List.mem_cons, List.mem_nil_iff, or_false] at ht
     rcases ht with rfl | rfl <;> decide
-  have h := render_refines_lexical_partial noColl gCall rfl hfr (by simp [gCall]) [116] [] (by simp) 4 none false (fun _ => rfl) none (fun _ h => by cases h)
+  have h := render_refines_lexical_partial noColl gCall rfl hfr (by simp [gCall]) [116] [] (by simp) 4 none false none ⟨fun _ => rfl, fun _ h => by cases h⟩ (fun _ h => by cases h)
   have hs : Spec.Eval.render gCall.reg (absK gCall.globals) none false [116] (absK []) 4 = .val [91, 76, 93, 76] := by rfl
   rw [hs] at h
   exact h
@@ -2241,7 +2547,7 @@ example : (execute gAll [116] [([120], .str [68])] 4).cls = .ok ∧
     intro t ht
     simp only [gAll, List.mem_cons, List.mem_nil_iff, or_false] at ht
     rcases ht with rfl | rfl <;> decide
-  have h := render_refines_lexical_partial noColl gAll rfl hfr (by simp [gAll]) [116] [([120], .str [68])] (by simp [OkAt, Scalar, Shallow]) 4 none false (fun _ => rfl) none (fun _ h => by cases h)
+  have h := render_refines_lexical_partial noColl gAll rfl hfr (by simp [gAll]) [116] [([120], .str [68])] (by simp [OkAt, Scalar, Shallow]) 4 none false none ⟨fun _ => rfl, fun _ h => by cases h⟩ (fun _ h => by cases h)
   have hs : Spec.Eval.render gAll.reg (absK gAll.globals) none false [116] (absK [([120], .str [68])]) 4 = .val [91, 76, 68, 93] := by rfl
   rw [hs] at h
   exact h
@@ -2265,6 +2571,7 @@ def gData : GEnv := { reg := [tCallerData, tCalleeAll], globals := [], ij := non
 
 def dataLM : Frame := [([108], .list 7 [.str [97], .str [98]]), ([109], .map 8 [([120], .str [77])])]
 
+set_option maxHeartbeats 2000000 in
 example : (execute gData [116] dataLM 4).cls = .ok ∧
     (execute gData [116] dataLM 4).chunks.flatten = [97, 98, 91, 80, 77, 93, 91, 82, 81, 93] := by
   have hfr : regFrag collLM gData.reg := by
@@ -2272,7 +2579,7 @@ example : (execute gData [116] dataLM 4).cls = .ok ∧
     simp only [gData, List.mem_cons, List.mem_nil_iff, or_false] at ht
     rcases ht with rfl | rfl <;> decide
   have h := render_refines_lexical_partial collLM gData rfl hfr (by simp [gData]) [116] dataLM
-    (by simp [dataLM, OkAt, Scalar, Shallow, collLM]) 4 none false (fun _ => rfl) none (fun _ h => by cases h)
+    (by simp [dataLM, OkAt, Scalar, Shallow, collLM]) 4 none false none ⟨fun _ => rfl, fun _ h => by cases h⟩ (fun _ h => by cases h)
   have hs : Spec.Eval.render gData.reg (absK gData.globals) none false [116] (absK dataLM) 4 =
       .val [97, 98, 91, 80, 77, 93, 91, 82, 81, 93] := by rfl
   rw [hs] at h
@@ -2300,7 +2607,7 @@ example : bufBytes (execCmd g0 true (fun _ ctx st => ⟨.fuelOut, ctx, st⟩)
     (.forc 1 [121] (.dataRef 1 [108] .nil) (.mk 2 (.cons (.print 2 (.dataRef 2 [121] .nil) []) .nil)) none) ctx0 stL).st.out = [97, 98] := by
   have hcall : ∀ t, GoodRun ((fun _ ctx st => ⟨.fuelOut, ctx, st⟩ : Registry.Tmpl → Run) t) :=
     fun _ ctx st _ => ⟨by simp, fun h => by simp at h, Ext.refl _ _⟩
-  have h := foreach_over_value_refines g0 rfl true _ hcall [] false envL.vars (fun _ _ => .unspec) none rfl (fun _ => rfl) (fun _ h => by cases h) (fun _ _ _ _ _ _ _ _ => trivial)
+  have h := foreach_over_value_refines g0 rfl true _ hcall [] false envL.vars (fun _ _ => .unspec) none rfl ⟨fun _ => rfl, fun _ h => by cases h⟩ (fun _ h => by cases h) (fun _ _ _ _ _ _ _ _ => trivial)
     1 [121] (.dataRef 1 [108] .nil) 2 (.cons (.print 2 (.dataRef 2 [121] .nil) []) .nil) (by decide) ctx0 stL envL relL
     ⟨⟨1, false⟩, [⟨0, true⟩], ⟨[], false⟩, rfl, rfl, rfl⟩ (by intro f hf; simp [ctx0] at hf; rcases hf with rfl | rfl <;> simp [stL])
     (list_variable_agrees g0 1 [108] rfl ctx0 stL envL 7 [.str [97], .str [98]] (by simp [Scalar]) rfl rfl)
@@ -2325,7 +2632,7 @@ example : (execute gContent [116] [] 4).cls = .ok ∧ (execute gContent [116] []
     intro t ht
     simp only [gContent, List.mem_cons, List.mem_nil_iff, or_false] at ht
     rcases ht with rfl | rfl <;> decide
-  have h := render_refines_lexical_partial noColl gContent rfl hfr (by simp [gContent]) [116] [] (by simp) 4 none false (fun _ => rfl) none (fun _ h => by cases h)
+  have h := render_refines_lexical_partial noColl gContent rfl hfr (by simp [gContent]) [116] [] (by simp) 4 none false none ⟨fun _ => rfl, fun _ h => by cases h⟩ (fun _ h => by cases h)
   have hs : Spec.Eval.render gContent.reg (absK gContent.globals) none false [116] (absK []) 4 = .val [91, 40, 76, 41, 93] := by rfl
   rw [hs] at h
   exact h
@@ -2352,7 +2659,7 @@ example : (execute gMsg [116] dataMsg 4).cls = .ok ∧ (execute gMsg [116] dataM
     simp only [gMsg, List.mem_cons, List.mem_nil_iff, or_false] at ht
     subst ht; decide
   have h := render_refines_lexical_partial noColl gMsg rfl hfr (by simp [gMsg]) [116] dataMsg
-    (by simp [dataMsg, OkAt, Scalar, Shallow]) 4 none false (fun _ => rfl) none (fun _ h => by cases h)
+    (by simp [dataMsg, OkAt, Scalar, Shallow]) 4 none false none ⟨fun _ => rfl, fun _ h => by cases h⟩ (fun _ h => by cases h)
   have hs : Spec.Eval.render gMsg.reg (absK gMsg.globals) none false [116] (absK dataMsg) 4 = .val [72, 111, 117, 116, 51, 115] := by rfl
   rw [hs] at h
   exact h
@@ -2440,9 +2747,9 @@ example : (execute gDir [116] [([120], .str [60, 98, 62, 99])] 4).cls = .ok ∧
     simp only [gDir, List.mem_cons, List.mem_nil_iff, or_false] at ht
     subst ht; decide
   have h := render_refines_lexical_partial noColl gDir rfl hfr (by simp [gDir]) [116] [([120], .str [60, 98, 62, 99])]
-    (by simp [OkAt, Scalar, Shallow]) 4 none false (fun _ => rfl) (some (modelDirSem gDir.tbl)) (modelDirSem_ok gDir)
+    (by simp [OkAt, Scalar, Shallow]) 4 none false (some { dirs := some (modelDirSem gDir.tbl) }) ⟨fun _ => rfl, fun _ h => by cases h⟩ (modelDirSem_ok gDir)
   have hs : Spec.Eval.render gDir.reg (absK gDir.globals) none false [116] (absK [([120], .str [60, 98, 62, 99])]) 4
-      (some (modelDirSem gDir.tbl)) = .val [38, 108, 116, 59, 98, 38, 103, 116, 59, 99, 60, 98, 62, 99, 60, 98] := by rfl
+      (some { dirs := some (modelDirSem gDir.tbl) }) = .val [38, 108, 116, 59, 98, 38, 103, 116, 59, 99, 60, 98, 62, 99, 60, 98] := by rfl
   rw [hs] at h
   exact h
 
@@ -2460,11 +2767,69 @@ def body3 : Block :=
 example : bufBytes (execBody g0 true (fun _ ctx st => ⟨.fuelOut, ctx, st⟩) body3 ctx0 st0).st.out = [67, 69] := by
   have hcall : ∀ t, GoodRun ((fun _ ctx st => ⟨.fuelOut, ctx, st⟩ : Registry.Tmpl → Run) t) :=
     fun _ ctx st _ => ⟨by simp, fun h => by simp at h, Ext.refl _ _⟩
-  have h := exec_refines_lexical_partial g0 rfl true _ hcall [] false env0.vars (fun _ _ => .unspec) none rfl (fun _ => rfl) (fun _ h => by cases h) (fun _ _ _ _ _ _ _ _ => trivial) body3 (by decide) ctx0 st0 env0 rel0
+  have h := exec_refines_lexical_partial g0 rfl true _ hcall [] false env0.vars (fun _ _ => .unspec) none rfl ⟨fun _ => rfl, fun _ h => by cases h⟩ (fun _ h => by cases h) (fun _ _ _ _ _ _ _ _ => trivial) body3 (by decide) ctx0 st0 env0 rel0
     ⟨⟨1, false⟩, [⟨0, true⟩], ⟨[], false⟩, rfl, rfl, rfl⟩ (by intro f hf; simp [ctx0] at hf; rcases hf with rfl | rfl <;> simp [st0])
   have hs : Spec.Eval.renderBlock [] false true env0.vars (fun _ _ => .unspec) none body3 env0 = .val [67, 69] := by rfl
   rw [hs] at h
   simpa [bufBytes, st0] using h.2
+
+/-! ### {msg} through a message bundle: the interpreter's bundle read as the specification's `MsgSem` -/
+
+/-- the interpreter's bundle as the specification's -/
+def modelMsgSem (b : MsgBundle) : Spec.Eval.MsgSem :=
+  { message := fun id => (b.message id).map toT, pluralCase := b.pluralCase }
+
+theorem modelMsgSem_ok (g : GEnv) (b : MsgBundle) (hb : g.msgs = some b) (dirs : Option Spec.Eval.DirSem) :
+    BundleOk g true (some { dirs := dirs, msgs := some (modelMsgSem b) }) := by
+  refine ⟨fun h => (by cases h), fun B hB => ?_⟩
+  simp only [Spec.Eval.msgsOf, Option.bind_some, Option.some.injEq] at hB
+  subst hB
+  exact ⟨b, hb, fun _ => rfl, fun _ => rfl⟩
+
+/-! `{msg}H{$x} and {$n}{/msg}{msg}{plural $n}{case 1}one{default}{$n}s{/plural}{/msg}` on x = 'out', n = 3, with
+
+      message 77 ↦ `[{N}|{X}]`                       (the placeholders REORDERED)
+      message 78 ↦ plural V: form 0 `eins`, form 1 `{N} viele`;   pluralCase n = 0 if n = 1, else 1
+
+    renders "[3|out]3 viele" — through the translations, not the source text. -/
+
+def tMsgB : Registry.Tmpl :=
+  { name := [116], params := [],
+    body := .mk 1 (.cons (.msg 2 77 [] [] 3
+        (.text 3 [72] (.ph 4 [88] (.cmd (.print 4 (.dataRef 4 [120] .nil) []))
+          (.text 5 [32, 97, 110, 100, 32] (.ph 6 [78] (.cmd (.print 6 (.dataRef 6 [110] .nil) [])) .nil)))))
+      (.cons (.msg 7 78 [] [] 8
+        (.plural 8 [86] (.dataRef 8 [110] .nil)
+          (.cons 9 1 10 (.text 10 [111, 110, 101] .nil) .nil) 11
+          (.ph 11 [78] (.cmd (.print 11 (.dataRef 11 [110] .nil) [])) (.text 12 [115] .nil)) .nil)) .nil)),
+    autoescape := .unspecified, nsName := [110], nsAutoescape := .unspecified, pos := 0, file := [102], text := [] }
+
+def bundleB : MsgBundle :=
+  { message := fun id =>
+      if id == 77 then some (.cons (.raw [91]) (.cons (.ph [78]) (.cons (.raw [124]) (.cons (.ph [88]) (.cons (.raw [93]) .nil)))))
+      else if id == 78 then some (.cons (.plural [86]
+        (.cons (.cons (.raw [101, 105, 110, 115]) .nil)
+          (.cons (.cons (.ph [78]) (.cons (.raw [32, 118, 105, 101, 108, 101]) .nil)) .nil))) .nil)
+      else none
+    pluralCase := fun n => if n == 1 then 0 else 1 }
+
+def gMsgB : GEnv := { reg := [tMsgB], globals := [], ij := none, msgs := some bundleB, tbl := [], oblig := [] }
+
+set_option maxHeartbeats 2000000 in
+example : (execute gMsgB [116] dataMsg 4).cls = .ok ∧
+    (execute gMsgB [116] dataMsg 4).chunks.flatten = [91, 51, 124, 111, 117, 116, 93, 51, 32, 118, 105, 101, 108, 101] := by
+  have hfr : regFrag noColl gMsgB.reg := by
+    intro t ht
+    simp only [gMsgB, List.mem_cons, List.mem_nil_iff, or_false] at ht
+    subst ht; decide
+  have h := render_refines_lexical_partial noColl gMsgB rfl hfr (by simp [gMsgB]) [116] dataMsg
+    (by simp [dataMsg, OkAt, Scalar, Shallow]) 4 none true (some { dirs := none, msgs := some (modelMsgSem bundleB) })
+    (modelMsgSem_ok gMsgB bundleB rfl none) (fun _ h => by cases h)
+  have hs : Spec.Eval.render gMsgB.reg (absK gMsgB.globals) none true [116] (absK dataMsg) 4
+      (some { dirs := none, msgs := some (modelMsgSem bundleB) }) =
+      .val [91, 51, 124, 111, 117, 116, 93, 51, 32, 118, 105, 101, 108, 101] := by rfl
+  rw [hs] at h
+  exact h
 
 /-- `{for $i in range(1, 4)}{$i}{/for}{$x}`: "123out" -/
 def body2 : Block :=
@@ -2475,7 +2840,7 @@ def body2 : Block :=
 example : bufBytes (execBody g0 true (fun _ ctx st => ⟨.fuelOut, ctx, st⟩) body2 ctx0 st0).st.out = [49, 50, 51, 111, 117, 116] := by
   have hcall : ∀ t, GoodRun ((fun _ ctx st => ⟨.fuelOut, ctx, st⟩ : Registry.Tmpl → Run) t) :=
     fun _ ctx st _ => ⟨by simp, fun h => by simp at h, Ext.refl _ _⟩
-  have h := exec_refines_lexical_partial g0 rfl true _ hcall [] false env0.vars (fun _ _ => .unspec) none rfl (fun _ => rfl) (fun _ h => by cases h) (fun _ _ _ _ _ _ _ _ => trivial) body2 (by decide) ctx0 st0 env0 rel0
+  have h := exec_refines_lexical_partial g0 rfl true _ hcall [] false env0.vars (fun _ _ => .unspec) none rfl ⟨fun _ => rfl, fun _ h => by cases h⟩ (fun _ h => by cases h) (fun _ _ _ _ _ _ _ _ => trivial) body2 (by decide) ctx0 st0 env0 rel0
     ⟨⟨1, false⟩, [⟨0, true⟩], ⟨[], false⟩, rfl, rfl, rfl⟩ (by intro f hf; simp [ctx0] at hf; rcases hf with rfl | rfl <;> simp [st0])
   have hs : Spec.Eval.renderBlock [] false true env0.vars (fun _ _ => .unspec) none body2 env0 = .val [49, 50, 51, 111, 117, 116] := by rfl
   rw [hs] at h
